@@ -83,6 +83,9 @@ static int nnew = 0;
 static long nconf_events = 0; /* conflicting access events (in filter or not) */
 
 static int barrier_count = 0, crit_owner = -1;
+static long stray_writes = 0;
+static uintptr_t stray_first = 0;
+static int check_strays = 0;
 static int nrg, blk_overflow;
 static unsigned char *kernel_top;
 #define MAXDYN 64
@@ -226,6 +229,19 @@ static void record_region_state(unsigned char *sp_lo, void *fn) {
     rg_hash[nrg] = h;
     nrg++;
 }
+/* a write is "known" if it lands in a registered argument buffer or in a heap block the kernel allocated itself */
+static int inside_known_memory(uintptr_t a, int sz) {
+    for (int i = 0; i < nregbuf; i++)
+        if (a >= (uintptr_t)regbuf[i].p && a + sz <= (uintptr_t)regbuf[i].p + regbuf[i].n) return 1;
+    for (int i = 0; i < nblk; i++)
+        if (a >= (uintptr_t)blk[i].p && a + sz <= (uintptr_t)blk[i].p + blk[i].n) return 1;
+    for (int t = 0; t < nthr && t < MAXT; t++)
+        if (T[t].stack && a >= (uintptr_t)T[t].stack && a < (uintptr_t)T[t].stack + STACKSZ) return 1;
+    return 0;
+}
+void vrt_check_strays(int on) { check_strays = on; stray_writes = 0; stray_first = 0; }
+long vrt_stray_writes(void) { return stray_writes; }
+uintptr_t vrt_stray_first(void) { return stray_first; }
 int vrt_nrg(void) { return nrg; }
 void vrt_get_rg(int *pts, uint64_t *hs) { memcpy(pts, rg_point, nrg * sizeof(int)); memcpy(hs, rg_hash, nrg * sizeof(uint64_t)); }
 
@@ -321,10 +337,15 @@ static int note_access(uintptr_t w, int iswrite) {
     return 0;
 }
 
+static int inside_known_memory(uintptr_t a, int sz);
 static void access_hook(void *p, int sz, int w) {
     if (!active || cur < 0) return;
     uintptr_t a = (uintptr_t)p;
     if (a >= (uintptr_t)T[cur].stack && a < (uintptr_t)T[cur].stack + STACKSZ) return; /* own stack */
+    if (w && check_strays && !inside_known_memory(a, sz)) {
+        if (!stray_writes) stray_first = a;
+        stray_writes++;
+    }
     nacc_total++;
     if (log_acc) {
         if (nacc == acccap) {
@@ -638,3 +659,6 @@ long vrt_call2(void *fn0, long *a0, double *d0, void *fn1, long *a1, double *d1)
     return 0;
 }
 long vrt_caller_ret(int t) { return callers[t].ret; }
+
+/* a caller that does nothing: lets a single kernel call run in callers mode (every access of the whole call is then seen) */
+long vrt_noop(void) { return 0; }
